@@ -192,6 +192,10 @@ def c06_scenarios(ctx):
         scns.append(dict(id=sid, kind="stall", route="all", connbuf=cb, iobuf=iob, flush_ms=fl,
                          lines=(4 * (7_000_000 // ll + iob // ll + cb + 2100)) // 3, linelen=ll,
                          rcvbuf=rng.choice([2048, 8192]), close_after=0, stall_ms=max(400, 12 * fl), switches=[]))
+        # ... and the same with a close instead of the resume: the endpoint closes while the writer sits in a blocked write
+        # (latency bound only: what was queued for the closed connection is legitimately gone)
+        sid += 1
+        scns.append(dict(scns[-1], id=sid, kind="stallclose", stall_ms=max(200, 6 * fl)))
     # one bad endpoint must not affect the others of the same route
     for (cb, iob, fl) in sizes[:2]:
         sid += 1
